@@ -36,6 +36,19 @@ def strValue (cfg : Cfg) (t : KS) (k : String) : Option CVal :=
   | some ⟨.str b, _⟩ => decode cfg b
   | _ => none
 
+/-- the sliding-window log: forget the entries below `a`, count those in [a, b]; when the count is below the limit
+add `b` (re-arming the TTL when one is given) and count it -/
+def slide (t : KS) (k : String) (old : List Int) (dl : Option Nat) (a b maxv : Int) (ms : Nat) : KS × Int :=
+  let kept := old.filter fun x => !(decide (0 ≤ x) && decide (x < a))
+  let n : Int := (kept.filter fun x => decide (a ≤ x) && decide (x ≤ b)).length
+  let t1 := if kept.isEmpty then t.del k else t.put k ⟨.zset kept, dl⟩
+  if n < maxv then
+    let new := if b ∈ kept then kept else kept ++ [b]
+    let dl1 := if kept.isEmpty then none else dl
+    let dl2 := if ms > 0 then some (t.now + ms) else dl1
+    (t1.put k ⟨.zset new, dl2⟩, n + 1)
+  else (t1, n)
+
 def step (cfg : Cfg) (t : KS) : ROp → KS × ROut
   | .set k v ttl c =>
     let go := match c with | .always => true | .nx => !t.present k | .xx => t.present k
@@ -101,38 +114,28 @@ def step (cfg : Cfg) (t : KS) : ROp → KS × ROut
     let r := prim t (.srem k ms)
     (r.1, if r.2 = .err then failOut cfg .none_ else .none_)
   | .setPop k count =>
-    match prim t (.spop k count) with
-    | (t', .strs l) => (t', .keys l)
-    | (t', _) => (t', failOut cfg (.keys []))
+    let r := prim t (.spop k count)
+    match r.2 with
+    | .strs l => (r.1, .keys l)
+    | _ => (r.1, failOut cfg (.keys []))
   | .getBits k idx size =>
-    match prim t (.bitfield k (idx.map fun i => .get size i)) with
-    | (t', .ints l) => (t', .ints l)
-    | (t', _) => (t', failOut cfg (.ints []))
+    let r := prim t (.bitfield k (idx.map fun i => .get size i))
+    match r.2 with
+    | .ints l => (r.1, .ints l)
+    | _ => (r.1, failOut cfg (.ints []))
   | .incrBits k idx size by_ =>
     -- every counter saturates
-    match prim t (.bitfield k (match idx with | [] => [] | _ => .overflow .sat :: idx.map fun i => .incrby size i by_)) with
-    | (t', .ints l) => (t', .ints l)
-    | (t', _) => (t', failOut cfg (.ints []))
+    let r := prim t (.bitfield k (incrBitsOps idx size by_))
+    match r.2 with
+    | .ints l => (r.1, .ints l)
+    | _ => (r.1, failOut cfg (.ints []))
   | .sliceIncr k start stop maxv ttl =>
-    -- sliding-window log: forget the entries below `start`, count those in [start, stop]; when below the
-    -- limit add `stop` (and re-arm the TTL) and count it
-    let ms := ttl.getD 0
-    let go (old : List Int) (dl : Option Nat) (a b : Int) : KS × ROut :=
-      let kept := old.filter fun x => !(decide (0 ≤ x) && decide (x < a))
-      let n : Int := (kept.filter fun x => decide (a ≤ x) && decide (x ≤ b)).length
-      let t1 := if kept.isEmpty then t.del k else t.put k ⟨.zset kept, dl⟩
-      if n < maxv then
-        let new := if b ∈ kept then kept else kept ++ [b]
-        let dl1 := if kept.isEmpty then none else dl
-        let dl2 := if ms > 0 then some (t.now + ms) else dl1
-        (t1.put k ⟨.zset new, dl2⟩, .int (n + 1))
-      else (t1, .int n)
     match Srv.scoreOf start, Srv.scoreOf stop with
     | some a, some b =>
       match t.find k with
       | none => if (0 : Int) < maxv then
-          (t.put k ⟨.zset [b], if ms > 0 then some (t.now + ms) else none⟩, .int 1) else (t, .int 0)
-      | some ⟨.zset old, dl⟩ => go old dl a b
+          (t.put k ⟨.zset [b], if ttl.getD 0 > 0 then some (t.now + ttl.getD 0) else none⟩, .int 1) else (t, .int 0)
+      | some ⟨.zset old, dl⟩ => ((slide t k old dl a b maxv (ttl.getD 0)).1, .int (slide t k old dl a b maxv (ttl.getD 0)).2)
       | some _ => (t, failOut cfg .none_)
     | _, _ => (t, failOut cfg .none_)
   | .ping => (t, .pong)
@@ -172,9 +175,7 @@ def failureValue : ROp → ROut
 def run (cfg : Cfg) (t : KS) : List ROp → KS × List ROut
   | [] => (t, [])
   | op :: ops =>
-    let (t', o) := step cfg t op
-    let (t'', os) := run cfg t' ops
-    (t'', o :: os)
+    ((run cfg (step cfg t op).1 ops).1, (step cfg t op).2 :: (run cfg (step cfg t op).1 ops).2)
 
 end Ref
 end CashewsVerif.Redis
